@@ -392,7 +392,7 @@ impl BitOps {
     /// Parallel bit extraction for multi-field compression
     #[inline]
     pub fn parallel_bit_extract_bmi2(&self, source: u64, field_masks: &[u64]) -> Vec<u64> {
-        if self.config.enable_bmi2 && self.config.enable_compression_optimizations && self.features.has_bmi2 {
+        if self.config.enable_bmi2 && self.config.enable_compression_optimizations && self.features.has_bmi2 && !field_masks.is_empty() {
             return Bmi2AdvancedPatterns::pext_parallel_extract(&[source], field_masks[0])
                 .into_iter()
                 .chain(
